@@ -1,0 +1,17 @@
+//go:build verif
+
+package nathole
+
+// VerifC08SessionCount returns the number of hole-punching sessions the controller holds.
+func (c *Controller) VerifC08SessionCount() int {
+	c.mu.RLock()
+	defer c.mu.RUnlock()
+	return len(c.sessions)
+}
+
+// VerifC08ClientCount returns the number of registered xtcp proxies (clientCfgs).
+func (c *Controller) VerifC08ClientCount() int {
+	c.mu.RLock()
+	defer c.mu.RUnlock()
+	return len(c.clientCfgs)
+}
